@@ -67,18 +67,27 @@ def check(ctx, src):
     guard = app
     while guard is not None and not isinstance(guard, ast.If):
         guard = guard._parent
-    ctx.check(guard is not None and norm(guard.test) == "can_append", "BOOL-APPEND", f"{R}|{FN}|append-guard",
-              f"values are appended under `{norm(guard.test) if guard is not None else None}`: the test must be exactly the flag (a type test also matches a nested and/or the user wrote)",
-              R, app.lineno if app else f.lineno, witness="(and a b (do (s) (or p q)) c) appends c to the user's `or`", detail="if can_append")
-    sets_true = [n for n in ast.walk(enb) if isinstance(n, ast.Assign) and norm(n) == "can_append = True"]
-    ctx.check(len(sets_true) == 1, "BOOL-APPEND", f"{R}|{FN}|flag-set-on-create", "the flag must be set exactly where a new BoolOp is created", R, enb.lineno, detail="set on creation")
-    put = next((n for n in ast.walk(f) if isinstance(n, ast.FunctionDef) and n.name == "put"), None)
+    # FLAG: the variable the append is guarded by.  It says "the current expression is the BoolOp this call created";
+    # the rules below are about that role, whatever the variable is called.
+    gt = guard.test if guard is not None else None
+    flag = gt.id if isinstance(gt, ast.Name) else next((v.id for v in getattr(gt, "values", []) if isinstance(v, ast.Name)), None)
+    ctx.decide("BOOL-APPEND", f"{R}|{FN}|append-guard", None if gt is None or flag is None else isinstance(gt, ast.Name),
+               f"values are appended under `{norm(gt) if gt is not None else None}`: the test must be exactly the flag (a type test also matches a nested and/or the user wrote)",
+               R, app.lineno if app else f.lineno, witness="(and a b (do (s) (or p q)) c) appends c to the user's `or`", detail="if <flag>")
+
+    def _sets(node, value):
+        return [n for n in ast.walk(node) if isinstance(n, ast.Assign) and len(n.targets) == 1 and isinstance(n.targets[0], ast.Name) and n.targets[0].id == flag
+                and isinstance(n.value, ast.Constant) and n.value.value is value]
+
+    ctx.decide("BOOL-APPEND", f"{R}|{FN}|flag-set-on-create", None if flag is None else len(_sets(enb, True)) == 1, "the flag must be set exactly where a new BoolOp is created", R, enb.lineno, detail="set on creation")
+    # put(): the helper that replaces the current expression by a new assignment - the nested function that builds the Assign
+    put = next((n for n in ast.walk(f) if isinstance(n, ast.FunctionDef) and n is not f and any(isinstance(c, ast.Call) and dotted(c.func) == "asty.Assign" for c in ast.walk(n))), None)
     ctx.need(put is not None, "put not found")
-    ctx.check(any(norm(s) == "can_append = False" for s in put.body) and any(isinstance(s, ast.Nonlocal) and "can_append" in s.names for s in put.body), "BOOL-APPEND",
-              f"{R}|{FN}|put-clears-flag", "put() replaces the current expression (a new assignment) but does not clear the flag", R, put.lineno,
-              witness="(and a b (do (s) (or p q)) c): c is appended inside the wrong BoolOp", detail="can_append = False in put")
+    ctx.decide("BOOL-APPEND", f"{R}|{FN}|put-clears-flag", None if flag is None else bool(_sets(put, False)) and any(isinstance(s, ast.Nonlocal) and flag in s.names for s in ast.walk(put)),
+               "put() replaces the current expression (a new assignment) but does not clear the flag", R, put.lineno,
+               witness="(and a b (do (s) (or p q)) c): c is appended inside the wrong BoolOp", detail="<flag> = False in put")
     first_arm = loop.body[0] if isinstance(loop.body[0], ast.If) else None
-    ctx.check(first_arm is not None and norm(first_arm.test) == "ret is None" and any(norm(s) == "can_append = False" for s in first_arm.body), "BOOL-APPEND",
+    ctx.check(first_arm is not None and norm(first_arm.test) == "ret is None" and flag is not None and bool([n for st in first_arm.body for n in _sets(st, False)]), "BOOL-APPEND",
               f"{R}|{FN}|first-clears-flag", "the first operand must clear the flag", R, loop.lineno, detail="cleared")
     # --- statement-bearing operand
     arm = first_arm.orelse[0] if first_arm is not None and first_arm.orelse and isinstance(first_arm.orelse[0], ast.If) else None
